@@ -311,6 +311,11 @@ func operatorRig(in Input) (*rig, error) {
 	if err != nil {
 		return r, err
 	}
+	if in.Via == "queues" {
+		if err := queuesRig(in, r, op, hookIdx); err != nil {
+			return r, err
+		}
+	}
 	r.tasks = func(crontab string) []TaskObs {
 		res := []TaskObs{}
 		for _, t := range cb(crontab) {
@@ -683,10 +688,16 @@ func exhaustiveOperator(maxLen int, same bool) []Input {
 
 // operatorTags: which of the enable / firing interleavings a case of the operator class contains
 func operatorTags(in Input, steps []Obs) []string {
-	if in.Via != "operator" {
+	if !isOperator(in) {
 		return []string{"class:controllers"}
 	}
 	tags := map[string]bool{"class:operator": true}
+	if in.Via == "queues" {
+		tags = map[string]bool{"class:queues": true}
+		for _, t := range queueTags(in, steps) {
+			tags[t] = true
+		}
+	}
 	// which hooks have a binding on which string
 	users := map[int]map[int]bool{}
 	for h, bs := range in.Hooks {
